@@ -32,6 +32,9 @@ SPECS = {
     "N22": dict(sizes=(2, 2), E=(0, 1, 3, 7), k=1, hermitian=False),
     "N21fd": dict(sizes=(2, 1), E=(0, 1, 3), k=1, hermitian=False, fd=(0,)),
     "H22k2": dict(sizes=(2, 2), E=(0, 1, 3, 7), k=2, hermitian=True),
+    # sparse and dense perturbation terms mixed in one Hamiltonian, fully diagonalised blocks (masks meet both containers)
+    "H3k2mixfd": dict(sizes=(3,), E=(0, 1, 3), k=2, hermitian=True, fd=(0,), repr="mixed"),
+    "H21k2mixfd": dict(sizes=(2, 1), E=(0, 1, 3), k=2, hermitian=True, fd=(0,), repr="mixed"),
     "H22sym": dict(sizes=(2, 2), E=(0, 1, 3, 7), k=1, hermitian=True, repr="sympy"),
     "H22csr": dict(sizes=(2, 2), E=(0, 1, 3, 7), k=1, hermitian=True, repr="csr"),
     "I23": dict(sizes=(2,), E=(0, 1, 3, 7, 12), k=1, hermitian=True, implicit=True),
@@ -84,6 +87,9 @@ def make_inputs(spec):
         conv = lambda m: np.array(m)  # noqa: E731
         h0 = np.diag(np.array(E, dtype=float))
     H = {z: h0, **{o: conv(m) for o, m in terms.items()}}
+    if rep == "mixed":
+        first = sorted(terms)[-1]
+        H[first] = sparse.csr_array(terms[first])
     kwargs = dict(hermitian=herm)
     if spec.get("implicit"):
         # explicit eigenvectors of the first sum(sizes) states; the rest is implicit
